@@ -10,7 +10,9 @@
 package pbcmpl
 
 import (
+	"bytes"
 	"io"
+	"math"
 
 	"github.com/openacid/errors"
 
@@ -119,15 +121,46 @@ func Unmarshal(r io.Reader, msg proto.Message) (int64, string, error) {
 		return n, ver, errors.WithStack(ErrInvalidHeaderSize)
 	}
 
-	b := make([]byte, hi.GetBodySize())
-	nbody, err := io.ReadFull(r, b)
-	n += int64(nbody)
+	b, nbody, err := readBody(r, uint64(hi.GetBodySize()))
+	n += nbody
 	if err != nil {
 		return n, ver, errors.WithStack(err)
 	}
 
 	err = proto.Unmarshal(b, msg)
 	return n, ver, errors.WithStack(err)
+}
+
+// maxBodyPrealloc is the largest body buffer allocated up front from the size
+// recorded in a header.
+const maxBodyPrealloc = 1 << 20
+
+// readBody reads exactly size bytes from r and reports errors the same way
+// io.ReadFull does.
+//
+// size comes from the stream and can not be trusted: a corrupt or truncated
+// stream may declare any uint64.
+// Thus a large body is read into a buffer that grows only as data arrives,
+// instead of allocating size bytes in advance.
+func readBody(r io.Reader, size uint64) ([]byte, int64, error) {
+
+	if size <= maxBodyPrealloc {
+		b := make([]byte, size)
+		n, err := io.ReadFull(r, b)
+		return b, int64(n), err
+	}
+
+	limit := int64(math.MaxInt64)
+	if size < uint64(limit) {
+		limit = int64(size)
+	}
+
+	buf := bytes.NewBuffer(make([]byte, 0, maxBodyPrealloc))
+	n, err := io.CopyN(buf, r, limit)
+	if err == io.EOF && n > 0 {
+		err = io.ErrUnexpectedEOF
+	}
+	return buf.Bytes(), n, err
 }
 
 // HeaderSize returns the marshaled size of the header for a proto.Message .
